@@ -156,11 +156,15 @@ PROPS = {
                 technique="TLA+ definition of shortest round-trip decimals over big naturals (ShortestDec.tla, BigNat.tla) evaluated by TLC on every produced text",
                 rule="structured float sampling x buffer states; non-trivial = a finite non-zero float; distinct by (bit pattern, buffer state, output)"),
     "C09": dict(level="model_checking", nontrivial=nt_c09,
+                mc=[dict(name="EqualsMC", module="EqualsMC.tla", cfg="EqualsDeep.cfg", timeout=900),
+                    dict(name="EqualsEmit", module="EqualsMC.tla", cfg="EqualsEmit.cfg", emit=True, id_base=1000000, tier_only="quick"),
+                    dict(name="EqualsEmitDeep", module="EqualsMC.tla", cfg="EqualsEmitDeep.cfg", emit=True, id_base=1000000, tier="thorough", timeout=1800)],
                 text="Every member of random families of derived frames is observed through Len, typed views (ItemAt and, in a second pass, Slice()), ToCSV, ToJSON and String() on the real "
                      "library; TLC compares each with the specification's own copy of the frame: view cells = the column's cells; the CSV bytes are split by the specification's RFC 4180 "
                      "denotation (Csv.tla) and must give header + strconv texts; the JSON bytes are recognised and decoded by JsonG.tla and must give the keys in column order and the cells; "
                      "String() must equal StringSem (Str.tla) byte for byte (50-row and width truncation). Equals on pairs (both directions, self, rebuilt-with-New, results of the same "
-                     "operation on original and rebuilt) must equal EqualsSem.",
+                     "operation on original and rebuilt) must equal EqualsSem. EqualsMC.tla: EqualsSem is an equivalence decided by values over all 24 964 pairs of small frames, "
+                     "and every pair (4 096 quick, all thorough) is executed: New, New, Equals both ways, with itself, Rebuild, Equals.",
                 note=TV_NOTE + " strconv renderings of ints/floats/bools are logged references. No Go CSV/JSON parser is involved in the verdict.",
                 technique="TLA+ specifications of the observers (Csv.tla, JsonG.tla, Str.tla, Frame.tla EqualsSem) + TLC trace validation",
                 rule="random derived families; non-trivial = an observer/Equals/Rebuild event or an event re-observing earlier members; distinct by (operation, arguments, result digest)"),
